@@ -44,7 +44,7 @@ def _build_raw(o, ctype=float, form=0):
     """construct the library object for an exact descriptor through the public constructors.
     form selects among equivalent constructor forms / argument orders where they exist:
       Line: 0 (Point, Vector) 1 (Point, Point) 2 (Vector, Vector)
-      HalfLine: 0 (Point, Vector) 1 (Point, Point);  Segment: 0 (Point, Point) 1 (Point, Vector)
+      HalfLine: 0 (Point, Vector) 1 (Point, Point);  Segment: 0 (Point, Point) 1 (Point, Vector) 2/3 (Point, Point) with the end / start point then replaced by item assignment
       Plane: 0 (Point, normal) 1 three points 2 (Point, Vector, Vector) 3 general form
       ConvexPolygon: vertex list rotated by form;  ConvexPolyhedron: face list rotated by form, odd
       forms additionally hand every second face over negated"""
@@ -65,8 +65,20 @@ def _build_raw(o, ctype=float, form=0):
             return G.HalfLine(pt(o[1], ctype), pt(X.add(o[1], o[2]), ctype))
         return G.HalfLine(pt(o[1], ctype), vec(o[2], ctype))
     if k == "S":
-        if form % 2 == 1:
+        if form % 4 == 1:
             return G.Segment(pt(o[1], ctype), vec(X.sub(o[2], o[1]), ctype))
+        if form % 4 in (2, 3):
+            # built with another end point, which is then replaced through the documented item assignment
+            d = X.sub(o[2], o[1])
+            u, _v = X.perp2(d)
+            w = X.add(u, X.mul(F(1, 2), d))
+            if form % 4 == 2:
+                s = G.Segment(pt(o[1], ctype), pt(X.add(o[2], w), float))
+                s[1] = pt(o[2], ctype)
+            else:
+                s = G.Segment(pt(X.sub(o[1], w), float), pt(o[2], ctype))
+                s[0] = pt(o[1], ctype)
+            return s
         return G.Segment(pt(o[1], ctype), pt(o[2], ctype))
     if k == "PL":
         f = form % 4
